@@ -2,12 +2,18 @@
 
 package client
 
-import "bufio"
+import (
+	"bufio"
+	"context"
+)
 
 var vC08SplitLens = []int{-1, 0, 12, 13, 16, 450}
 
+// vC08Fill: concrete filler put in front of every symbolic argument (0 = none); the "very long" arguments.
+var vC08Fill string
+
 func vArg(name string) string {
-	return vStr(name, vLen(name+"len", 0, vParam("A", 3)))
+	return vC08Fill + vStr(name, vLen(name+"len", 0, vParam("A", 3)))
 }
 
 func vVariadic(name string) []string {
@@ -19,17 +25,9 @@ func vVariadic(name string) []string {
 	return out
 }
 
-// VerifC08Commands: every exported command method, with arbitrary bytes in
-// every argument, queues only CR/LF-free lines that begin with its own verb;
-// the real write() then puts exactly line+CRLF on the wire, one flush per line.
-func VerifC08Commands() {
-	sl := vC08SplitLens[vLen("splitlen", 0, len(vC08SplitLens)-1)]
-	cfg := &Config{SplitLen: sl, Flood: true, QuitMessage: vArg("quitmsg")}
-	w := vNewWire()
-	conn := &Conn{cfg: cfg, out: make(chan string, 64)}
-	conn.io = bufio.NewReadWriter(bufio.NewReader(w), bufio.NewWriter(w))
-	verb := ""
-	anyVerb := false
+// vC08Call calls one exported command method with arbitrary arguments and
+// returns the verb every line it causes must begin with ("" for Raw: any).
+func vC08Call(conn *Conn) (verb string, anyVerb bool) {
 	switch vLen("method", 0, 27) {
 	case 0:
 		conn.Raw(vArg("a"))
@@ -120,6 +118,20 @@ func VerifC08Commands() {
 		conn.Authenticate(vArg("a"))
 		verb = "AUTHENTICATE"
 	}
+	return verb, anyVerb
+}
+
+// VerifC08Commands: every exported command method, with arbitrary bytes in
+// every argument, queues only CR/LF-free lines that begin with its own verb;
+// the real write() then puts exactly line+CRLF on the wire, one flush per line.
+func VerifC08Commands() {
+	vC08Fill = ""
+	sl := vC08SplitLens[vLen("splitlen", 0, len(vC08SplitLens)-1)]
+	cfg := &Config{SplitLen: sl, Flood: true, QuitMessage: vArg("quitmsg")}
+	w := vNewWire()
+	conn := &Conn{cfg: cfg, out: make(chan string, 64)}
+	conn.io = bufio.NewReadWriter(bufio.NewReader(w), bufio.NewWriter(w))
+	verb, anyVerb := vC08Call(conn)
 	lines := vDrain(conn)
 	vAssert(len(lines) >= 1, "queued-something")
 	for _, l := range lines {
@@ -141,5 +153,61 @@ func VerifC08Commands() {
 			vAssert(w.written[i] == l+"\r\n", "wire-is-line-crlf")
 		}
 	}
+	vReach("end")
+}
+
+// VerifC08Wire: the same calls against a connected client whose real send
+// goroutine writes to the wire; only the bytes that reach the server end are
+// looked at: CRLF-terminated lines, nothing else, no CR or LF inside, each
+// beginning with the verb of the method called. With FILL > 0 every argument
+// starts with that many filler bytes (lines around and beyond 512 bytes).
+func VerifC08Wire() {
+	vC08Fill = ""
+	if f := vParam("FILL", 0); f > 0 {
+		n := vLen("fill", f, f+vParam("FILLSPAN", 0))
+		b := make([]byte, n)
+		for i := range b {
+			b[i] = 'x'
+		}
+		vC08Fill = string(b)
+	}
+	sls := vC08SplitLens
+	if vParam("FILL", 0) > 0 {
+		sls = []int{0, 13, 600}[:vParam("NSL", 3)]
+	}
+	sl := sls[vLen("splitlen", 0, len(sls)-1)]
+	cfg := NewConfig("me")
+	cfg.Server, cfg.Proxy = "srv:1", "vtest://proxy"
+	cfg.PingFreq = 0
+	cfg.SplitLen = sl
+	cfg.Flood = true
+	if vLen("method", 0, 27) == 7 {
+		cfg.QuitMessage = vArg("quitmsg") // only Quit reads it
+	}
+	w := vNewLiveWire()
+	vInstallDialer(&vDialer{wire: w})
+	conn := Client(cfg)
+	ctx, cancel := context.WithCancel(context.Background())
+	err := conn.ConnectContext(ctx)
+	vAssume(err == nil)
+	vRunPending()
+	before := len(w.written)
+	verb, anyVerb := vC08Call(conn)
+	vRunPending()
+	all := ""
+	for _, x := range w.written[before:] {
+		all += x
+	}
+	vObserve("wire", all)
+	vAssert(len(all) >= 2, "wrote-something")
+	// whole CRLF-terminated lines only, no stray CR or LF, every line with the method's verb
+	vAssert(vWireTerminated(all), "wire-ends-with-crlf")
+	vAssert(!vWireBare(all), "no-crlf-in-line")
+	if !anyVerb {
+		vAssert(vWireVerbs(all, verb), "own-verb")
+	}
+	cancel()
+	conn.Close()
+	vRunPending()
 	vReach("end")
 }
